@@ -659,7 +659,7 @@ def run(chk: Check):
     # tie to the source by regeneration: the listed definitions are re-translated from /repo by py2coq on
     # every run and PROVED equal to the hand models (coq/props/TIE.v), plus a translator self-check
     from props._tie import run_tie
-    run_tie(chk, ['desugar', 'variables', 'index_participants', 'problem', 'glue'])
+    run_tie(chk, ['desugar', 'variables', 'index_participants', 'problem', 'glue', 'compose'])
 
 
 def replay(chk: Check, payload, quiet=False):
